@@ -61,6 +61,16 @@ FACTORS = [
     ("G:H", ["G", "H"]),
     ("C(G):H", ["G", "H"]),
     ("A:G:a", ["A", "G", "a"]),
+    # every syntactic position of a Python expression in which a column name can occur
+    ("exp(a_b)", ["a_b"]),                               # a plain name equal to the sanitized alias of `a b` (listed after log(`a b`))
+    ("np.clip(a, a_min=b, a_max=None)", ["a", "b"]),     # keyword argument
+    ("{offsets[gi]}", ["gi"]),                           # only inside a subscript (offsets comes from the context)
+    ("{a[0:] * lut[gi]}", ["a", "gi"]),                  # subscripted column (slice) and subscript index
+    ("abs(a)", ["a"]),                                   # Python builtin as the callable
+    ("round(b * kk)", ["b"]),                            # builtin + a context constant
+    ("np.where(a > 2, b, a)", ["a", "b"]),               # comparison
+    ("{a if kk else b}", ["a", "b"]),                    # conditional expression
+    ("{sum([a * wt for wt in (1, 2)])}", ["a"]),         # comprehension (wt is a bound name, not a column)
 ]
 LHS = [("", []), ("y ~ ", ["y"]), ("log(y) ~ ", ["y"]), ("`y z` ~ ", ["y z"])]
 
@@ -71,6 +81,8 @@ COLUMNS = {
     "G": ["k", "l", "k", "l", "k", "l"],
     "H": ["m", "m", "n", "n", "m", "n"],
     "a b": [1.5, 2.5, 0.5, 4.0, 6.0, 3.0],
+    "a_b": [0.1, 0.2, 0.3, 0.4, 0.5, 0.6],
+    "gi": [0, 1, 0, 1, 1, 0],
     "a.real": [9.0, 8.0, 7.0, 5.0, 6.0, 4.0],
     "n:s": [2.0, 4.0, 8.0, 1.0, 3.0, 9.0],
     "y": [1.0, 2.0, 4.0, 3.0, 6.0, 5.0],
@@ -83,7 +95,7 @@ def frame(cols):
     d = {}
     for k in COLUMNS:  # fixed column order
         if k in cols:
-            d[k] = pd.Series(COLUMNS[k], dtype=object if k in ("A", "G", "H") else float)
+            d[k] = pd.Series(COLUMNS[k], dtype=object if k in ("A", "G", "H") else int if k == "gi" else float)
     return pd.DataFrame(d, index=range(6))
 
 
@@ -95,7 +107,7 @@ def _g(x):
     return x * 2
 
 
-REQ_CONTEXT = {"f": _f, "g": _g}
+REQ_CONTEXT = {"f": _f, "g": _g, "offsets": np.array([10.0, 20.0]), "lut": np.array([0.5, 2.0]), "kk": 2}
 
 
 def outcome(fn):
@@ -133,7 +145,8 @@ def drv_required(c, ctx, col):
     needs = sorted(set(lhs_needs).union(*[p[1] for p in parts]))
     full = frame(set(needs) | {"zz"})
     tag = "factors=%s" % [p[0] for p in parts]
-    base_repro = ("import pandas as pd; from formulaic import *; f = lambda x, y: x + y; g = lambda x: x * 2; "
+    base_repro = ("import pandas as pd, numpy as np; from formulaic import *; f = lambda x, y: x + y; g = lambda x: x * 2; "
+                  "offsets = np.array([10., 20.]); lut = np.array([.5, 2.]); kk = 2; "
                   "full = pd.DataFrame(%r).astype({%s}); " % (full.to_dict("list"), ", ".join("%r: object" % k for k in ("A", "G", "H") if k in full)))
     col.sample({"formula": text, "columns_read": needs})
 
@@ -173,6 +186,14 @@ def drv_required(c, ctx, col):
     col.interesting()
     for phase, R, mat, rexpr, mexpr in phases:
         info = {"reported": R, "repro": base_repro + "print(%s)" % rexpr}
+        if phase == "formula":
+            # documented limitation of Formula.required_variables: without a context it cannot tell a column from a constant that
+            # the caller's context supplies ("This may not always be possible ...").  Names the context defines are UNSPECIFIED.
+            from_ctx = [r for r in R if r.split(".", 1)[0] in REQ_CONTEXT and r not in full.columns]
+            if from_ctx:
+                col.count("unspecified:context-name-reported-before-materialization", len(from_ctx))
+                R = [r for r in R if r not in from_ctx]
+                info["reported_context_names_ignored"] = from_ctx
         present = [r for r in R if r in full.columns]
         not_cols = [r for r in R if r not in full.columns]
         if not_cols:
